@@ -115,11 +115,14 @@ def seed_script(path, fmt, rng=None):
     return ''.join('%d * %s\n' % (i + 1, l) for i, l in enumerate(L))
 
 
-def big_seed_script(path, fmt):
-    """a header of more than one read chunk (262144 bytes): 70 global attributes of 1000 ints each"""
-    L = ['create %s %d clobber -' % (path, fmt), 'def_dim x 3']
+def big_seed_script(path, fmt=5):
+    """a CDF-5 header of more than one read chunk (262144 bytes): 70 global attributes of 1000 ints each, the first
+    one shortened to 54 so that the 8-byte nelems field of attribute 66 starts at offset 262140: it straddles the
+    chunk boundary and hdr_get_uint64 has to refill with 4 bytes of slack (memmove + shorter read)"""
+    L = ['create %s 5 clobber -' % path, 'def_dim x 3']
     for k in range(70):
-        L.append('put_att - big%02d int 1000 %s' % (k, ' '.join(str((k * 1000 + j) % 97) for j in range(1000))))
+        n = 54 if k == 0 else 1000
+        L.append('put_att - big%02d int %d %s' % (k, n, ' '.join(str((k * 1000 + j) % 97) for j in range(n))))
     L += ['def_var a int 1 x', 'put_att a units char 2 6d6d', 'enddef', 'put var c a int c - - - - : 5 6 7', 'inq_header', 'close']
     return ''.join('%d * %s\n' % (i + 1, l) for i, l in enumerate(L))
 
@@ -127,7 +130,7 @@ def big_seed_script(path, fmt):
 def make_seeds(api_exe, wd, tier, rng):
     seeds = []
     jobs = [(fmt, variant, False) for fmt in (1, 2, 5) for variant in ([None] if tier == 'quick' else [None, rng])]
-    jobs.append((rng.choice([1, 2, 5]), None, True))
+    jobs.append((5, None, True))
     for fmt, variant, big in jobs:
             name = 'seed%d%s.nc' % (fmt, 'B' if big else 'b' if variant else '')
             sp = os.path.join(wd, 'seed.txt')
@@ -142,6 +145,8 @@ def make_seeds(api_exe, wd, tier, rng):
             if rc != 0 or hs is None or bad:
                 raise RuntimeError('seed file creation failed rc=%s %s %s' % (rc, bad[:3], err[-300:]))
             seeds.append(dict(name=name, fmt=fmt, hs=hs, big=big, data=open(os.path.join(wd, name), 'rb').read()))
+            if big and seeds[-1]['data'][262140:262148] != (1000).to_bytes(8, 'big'):
+                log('[S4a] note: the multi-chunk seed does not have a 64-bit field across the chunk boundary (layout of the writer changed?)')
     return seeds
 
 
@@ -172,8 +177,8 @@ def gen_cases(seeds, tier, rng):
                 full.append(dict(kind='w8', name='%s:w8@%d=%x' % (tag, off, v), data=d[:off] + v.to_bytes(8, 'big') + d[off + 8:]))
         # off-by-one neighbourhood (always part of the quick tier): every word replaced by its own value +-1, and by
         # ndims-1 / ndims / ndims+1 of this file (the bound every dimension id is tested against)
-        w = 8 if s['fmt'] == 5 else 4
-        ndims = int.from_bytes(d[12:12 + w], 'big')
+        ndims = int.from_bytes(d[16:24] if s['fmt'] == 5 else d[12:16], 'big')      # element count of dim_list
+        ndims = min(ndims, 1 << 20)
         for off in range(0, hs, 4):         # (4-byte words: in CDF-5 the low half of a 64-bit field is one of them)
             cur = int.from_bytes(d[off:off + 4], 'big')
             vals = set([(cur + 1) % (1 << 32), (cur - 1) % (1 << 32)] + [x for x in (ndims - 1, ndims, ndims + 1) if x >= 0])
